@@ -105,6 +105,7 @@ def _check_root_with_markers(path: Path) -> bool:
     return (
         _has_marker(path, ".git", is_dir=True)
         or _has_marker(path, ".thailint.yaml", is_dir=False)
+        or _has_marker(path, ".thailint.json", is_dir=False)
         or _has_marker(path, "pyproject.toml", is_dir=False)
     )
 
@@ -144,6 +145,7 @@ def _find_root_manual(start_path: Path) -> Path:
         if (
             _has_marker(parent, ".git", is_dir=True)
             or _has_marker(parent, ".thailint.yaml", is_dir=False)
+            or _has_marker(parent, ".thailint.json", is_dir=False)
             or _has_marker(parent, "pyproject.toml", is_dir=False)
         ):
             return parent
@@ -196,8 +198,14 @@ def _find_root_with_pyprojroot(current: Path) -> Path:
     from pyprojroot import has_dir, has_file
 
     # Search for project root markers in priority order
-    # Try .git first (most reliable), then .thailint.yaml, then pyproject.toml
-    for criterion in [has_dir(".git"), has_file(".thailint.yaml"), has_file("pyproject.toml")]:
+    # Try .git first (most reliable), then .thailint.yaml / .thailint.json, then pyproject.toml
+    markers = [
+        has_dir(".git"),
+        has_file(".thailint.yaml"),
+        has_file(".thailint.json"),
+        has_file("pyproject.toml"),
+    ]
+    for criterion in markers:
         root = _try_find_with_criterion(criterion, current)
         if root is not None:
             return root
